@@ -46,6 +46,7 @@
 #include <sys/socket.h>
 #include <sys/un.h>
 #include <sys/wait.h>
+#include <sys/prctl.h>
 #include <qb/qbdefs.h>
 #include <qb/qbipcs.h>
 #include <qb/qbipcc.h>
@@ -538,7 +539,12 @@ static void warm_up(void)
 	FILE *keep = vt_out;
 	vt_out = fopen("/dev/null", "w");
 	int s = raw_connect(); note_connect(0);
-	if (s >= 0) { char junk[RS]; memset(junk, 0x55, sizeof(junk)); send(s, junk, sizeof(junk), MSG_NOSIGNAL); step_server(); close(s); step_server(); }
+	if (s >= 0) {   /* wrong id, sane max_msg_size (so that a server that wrongly admits it does not allocate gigabytes) */
+		struct qb_ipc_connection_request junk;
+		memset(&junk, 0, sizeof(junk));
+		junk.hdr.id = 0x55; junk.hdr.size = sizeof(junk); junk.max_msg_size = 8192;
+		send(s, &junk, sizeof(junk), MSG_NOSIGNAL); step_server(); close(s); step_server();
+	}
 	int cfd = -1;
 	qb_ipcc_connection_t *g = qb_ipcc_connect_async(svcname, 8192, &cfd); note_connect(0);
 	if (!g) { fprintf(stderr, "warm-up connect failed\n"); exit(3); }
@@ -565,6 +571,14 @@ static void child_main(char **lines, int nlines)
 	vt_flush();
 }
 
+static volatile pid_t cur_child;
+static void on_term(int sig)
+{
+	/* the driver's timeout: take the running child down and remove what its server left in /dev/shm */
+	if (cur_child > 0) { kill(cur_child, SIGKILL); waitpid(cur_child, NULL, 0); rm_shm_of(cur_child); }
+	_exit(124);
+}
+
 int main(int argc, char **argv)
 {
 	if (argc < 3) return 2;
@@ -575,6 +589,7 @@ int main(int argc, char **argv)
 	static char obuf[1 << 16];
 	setvbuf(vt_out, obuf, _IOLBF, sizeof(obuf));    /* no heap allocation by the event writer after the baseline census */
 	signal(SIGPIPE, SIG_IGN);
+	signal(SIGTERM, on_term); signal(SIGINT, on_term);
 	static char *lines[4096];
 	char raw[4096];
 	int n = 0, eof = 0, first = 1;
@@ -593,9 +608,15 @@ int main(int argc, char **argv)
 		if (nofork) { child_main(lines, n); vt_ev("Exit"); vt_res(); vt_i(0); vt_i(0); vt_end(); for (int i = 0; i < n; i++) free(lines[i]); return 0; }
 		pid_t pid = fork();
 		if (pid < 0) { perror("fork"); return 2; }
-		if (pid == 0) { child_main(lines, n); fflush(NULL); _exit(0); }
+		if (pid == 0) {
+			signal(SIGTERM, SIG_DFL); signal(SIGINT, SIG_DFL);
+			prctl(PR_SET_PDEATHSIG, SIGKILL);
+			child_main(lines, n); fflush(NULL); _exit(0);
+		}
+		cur_child = pid;
 		int st = 0;
 		while (waitpid(pid, &st, 0) < 0 && errno == EINTR) ;
+		cur_child = 0;
 		rm_shm_of(pid);
 		int kind = WIFEXITED(st) ? 0 : 1, code = WIFEXITED(st) ? WEXITSTATUS(st) : WTERMSIG(st);
 		vt_ev("Exit"); vt_res(); vt_i(kind); vt_i(code); vt_end();
